@@ -181,3 +181,31 @@ void h_##fn(void)                                                  \
 BLOB_HARNESS(binson_write_string_with_len, char)
 BLOB_HARNESS(binson_write_bytes, uint8_t)
 BLOB_HARNESS(binson_write_raw, uint8_t)
+
+/* In-place use: the source of a write may lie inside the writer's own buffer (e.g. shifting a serialized
+ * message to make room for a header with binson_write_raw). The library copies with memmove, so this is
+ * defined behaviour; a copy primitive with an overlap restriction (memcpy) is not. Plain CBMC run on the
+ * real _write: CBMC's library model of memcpy asserts that source and destination do not overlap. */
+void h__write_overlap(void)
+{
+    binson_writer *w = malloc(sizeof(*w));
+    __CPROVER_assume(w != NULL);
+    w->buffer_size = 8;                       /* constant capacity: CBMC's array theory does not finish on a symbolic one */
+    w->buffer = malloc(8);
+    __CPROVER_assume(w->buffer != NULL);
+    __CPROVER_assume(w->buffer_used <= w->buffer_size);
+    bbuf d;
+    size_t off = nondet_size_t();
+    __CPROVER_assume(off < w->buffer_size);
+    d.bptr = w->buffer + off;
+    d.bsize = nondet_size_t();
+    __CPROVER_assume(d.bsize <= w->buffer_size - off);
+    size_t o_used = w->buffer_used;
+    uint8_t g = nondet_uchar();
+    uint8_t o_src = (g < d.bsize) ? d.bptr[g] : 0;
+    bool r = _write(w, &d);
+    __CPROVER_assert(w->buffer_used == o_used + d.bsize, "counter exact for an overlapping source");                 /*@ overlap-counter-exact */
+    __CPROVER_assert(!(r && g < d.bsize) || w->buffer[o_used + g] == o_src,
+                     "an overlapping source is copied as if through a temporary (memmove semantics)");            /*@ overlap-copy-defined */
+    if (r) { __CPROVER_assert(0, "vacuity control: an in-place write that fits exists"); }
+}
